@@ -439,15 +439,18 @@ theorem lightFill_fresh_sound (ck : Chunk) (hmono : ck.recs.Pairwise (· ≤ ·)
       simp [this]
       exact ⟨h1, h2⟩
 
-/-- **F06 (stale snapshot), the unrepaired branch** (`syncChunkB false`: what `syncChunks` does without `dropStale`): the
-index knows chunk 1 with the hull `[10, 20]` of an earlier clean stop (2 records); the chunk grew by a record with
-timestamp 30 before the crash. `lightFill` skips the chunk (`MaxTs > 0`), the hull is never extended, and
-`RANGE [25:35]` returns nothing although the flushed event 30 is in range. -/
+/-- **F06 (stale snapshot), the unrepaired branches**: the index knows chunk 1 with the hull `[10, 20]` of an earlier clean
+stop (2 records); the chunk grew by a record with timestamp 30 before the crash. Without `dropStale` (`syncChunkC false _`),
+or with the hull copied BEFORE the drop (`syncChunkC true false`: the new entry carries the stale hull and `lightFill`
+skips it, `MaxTs > 0`), the hull the index reports does not contain the flushed event 30. Since a7caf30 the selector keeps
+such a chunk open for RANGE queries while the index accounts for fewer records than the chunk holds (which is the case in
+the second branch only: `Recs` 0), but the unsound hull is what `TRUNCATE … BEFORE` decides on. -/
 theorem cex_stale_snapshot :
     let stale : List ChkInfo := [⟨1, 10, 20, 0, 2⟩]
-    let cks : List Chunk := [⟨1, [10, 20, 30]⟩]
+    let ck : Chunk := ⟨1, [10, 20, 30]⟩
     lightFillSkipsWhenMaxTsPositive = true ∧ cindexSnapshotOnlyAtClose = true ∧
-    rangeVisible (cks.map (syncChunkB false stale)) cks 25 35 = [] ∧ rangeSpec cks 25 35 = [30] := by
+    (syncChunkC false true stale ck).maxTs = 20 ∧ (syncChunkC true false stale ck).maxTs = 20 ∧
+    (syncChunkC true true stale ck).maxTs = 30 := by
   decide
 
 /-- **No flushed event is hidden after recovery from a stale snapshot — the repaired branch** (`syncChunkB true`: the
@@ -460,11 +463,11 @@ theorem no_event_hidden_after_stale_snapshot (old : List ChkInfo) (ck : Chunk) (
     (ck.recs.length ≤ o.recs → syncChunkB true old ck = o) := by
   constructor
   · intro hs
-    have : syncChunkB true old ck = lightFill1 ck ⟨ck.id, maxInt64, 0, 0, 0⟩ := by simp [syncChunkB, hfind, hs]
+    have : syncChunkB true old ck = lightFill1 ck ⟨ck.id, maxInt64, 0, 0, 0⟩ := by simp [syncChunkB, syncChunkC, hfind, hs]
     rw [this]; exact lightFill_fresh_sound ck hmono
   · intro hs
     have : ¬ o.recs < ck.recs.length := by omega
-    simp [syncChunkB, hfind, this]
+    simp [syncChunkB, syncChunkC, hfind, this]
 
 /-- **F06 repaired** (a2ca477; `syncChunksDropsStaleEntries = true`, regenerated): on the witness of the finding — the
 snapshot of an earlier clean stop knows chunk 1 with the hull `[10, 20]` of 2 records, the chunk holds a third record 30 —
@@ -473,8 +476,9 @@ the repair flips the fact and breaks this theorem. -/
 theorem stale_snapshot_witness :
     let stale : CMap := [([106], [⟨1, 10, 20, 0, 2⟩])]
     let cks : List Chunk := [⟨1, [10, 20, 30]⟩]
-    syncChunksDropsStaleEntries = true ∧ rangeSpec cks 25 35 = [30] ∧
-    rangeVisible (hullView stale [106] cks) cks 25 35 = [30] ∧ staleGrown ((alookup stale [106]).getD []) cks = false := by
+    syncChunksDropsStaleEntries = true ∧ syncChunksDropsStaleBeforeHullCopy = true ∧ rangeSpec cks 25 35 = [30] ∧
+    rangeVisible (hullView stale [106] cks) cks 25 35 = [30] ∧ staleGrown ((alookup stale [106]).getD []) cks = false ∧
+    (hullView stale [106] cks).map (·.maxTs) = [30] := by
   decide
 
 /-- **No flushed event is hidden after recovery from a stale snapshot** (the statement about the code as it is): a chunk
@@ -484,7 +488,8 @@ theorem stale_snapshot_sync_first (old : List ChkInfo) (ck : Chunk) (o : ChkInfo
     (hfind : old.find? (fun o => o.id == ck.id) = some o) (hmono : ck.recs.Pairwise (· ≤ ·)) (hs : o.recs < ck.recs.length) :
     ∀ t ∈ ck.recs, (syncChunk old ck).minTs ≤ t ∧ t ≤ (syncChunk old ck).maxTs := by
   have hf : syncChunksDropsStaleEntries = true := by decide
-  have : syncChunk old ck = syncChunkB true old ck := by simp [syncChunk, hf]
+  have hf2 : syncChunksDropsStaleBeforeHullCopy = true := by decide
+  have : syncChunk old ck = syncChunkB true old ck := by simp [syncChunk, syncChunkB, hf, hf2]
   rw [this]
   exact (no_event_hidden_after_stale_snapshot old ck o hfind hmono).1 hs
 
@@ -522,7 +527,7 @@ timestamps are monotone and positive the hull contains every record, so no RANGE
 theorem hull_after_recover_partial (old : List ChkInfo) (ck : Chunk)
     (hunk : old.find? (fun o => o.id == ck.id) = none) (hmono : ck.recs.Pairwise (· ≤ ·)) :
     ∀ t ∈ ck.recs, (syncChunk old ck).minTs ≤ t ∧ t ≤ (syncChunk old ck).maxTs := by
-  have : syncChunk old ck = lightFill1 ck ⟨ck.id, maxInt64, 0, 0, 0⟩ := by simp [syncChunk, syncChunkB, hunk]
+  have : syncChunk old ck = lightFill1 ck ⟨ck.id, maxInt64, 0, 0, 0⟩ := by simp [syncChunk, syncChunkC, hunk]
   rw [this]; exact lightFill_fresh_sound ck hmono
 
 /-- non-monotone chunk: `lightFill`'s hull (first and last record) misses the record 50 — C02's class
@@ -548,9 +553,13 @@ theorem range_complete_of_sound_hulls : ∀ (hs : List ChkInfo) (cks : List Chun
     simp only [rangeVisible, rangeSpec, List.flatMap_cons] at ih ⊢
     rw [ih]
     congr 1
-    cases hh : hullHits h lo hi with
+    cases hc : ((selectorOpensChunkAheadOfIndex && decide (h.recs < ck.recs.length)) || hullHits h lo hi) with
     | true => simp
     | false =>
+      have hh : hullHits h lo hi = false := by
+        cases h1 : hullHits h lo hi with
+        | false => rfl
+        | true => simp [h1] at hc
       simp [hullHits] at hh
       symm
       simp only [Bool.false_eq_true, if_false]
@@ -648,7 +657,7 @@ theorem no_event_hidden_after_first_write_on_lost_snapshot (m : CMap) (src : Src
         have hrec : (rebuildHull (before ++ batch) ⟨cid, mn, mx, 0, before.length + batch.length⟩).recs
             = before.length + batch.length := by
           unfold rebuildHull; split <;> simp [ChkInfo.update]
-        simp [syncChunk, syncChunkB, hid, hrec]
+        simp [syncChunk, syncChunkC, hid, hrec]
       rw [hs] at hh
       subst hh
       exact rebuildHull_sound _ _ t ht
@@ -685,7 +694,7 @@ theorem stale_snapshot_write_first (m : CMap) (src : Src) (cid : Nat) (before ba
         Option.some.injEq] at hh hck
       subst hck
       have hs : syncChunk [e] ⟨cid, before ++ batch⟩ = e := by
-        simp [syncChunk, syncChunkB, hide, hrec]
+        simp [syncChunk, syncChunkC, hide, hrec]
       rw [hs] at hh
       subst hh
       exact rebuildHull_sound _ _ t ht
@@ -697,8 +706,8 @@ after the crash. (1) If the first thing that touches the chunk is a read (`syncC
 monotone chunk gets a hull that contains every record. (2) If it is a write, the chunk is rebuilt and afterwards every
 RANGE query over it returns exactly the events in range. The facts are regenerated; reverting either commit breaks this. -/
 theorem no_event_hidden_after_recovery_from_stale_snapshot :
-    (syncChunksDropsStaleEntries = true ∧ dropStaleOnlySnapshotEntries = true ∧ onWriteStaleSnapshotEntryIsNewChk = true ∧
-      syncChunksNeverStoresEmptyList = true) ∧
+    (syncChunksDropsStaleEntries = true ∧ syncChunksDropsStaleBeforeHullCopy = true ∧ dropStaleOnlySnapshotEntries = true ∧
+      onWriteStaleSnapshotEntryIsNewChk = true ∧ syncChunksNeverStoresEmptyList = true) ∧
     (∀ (old : List ChkInfo) (ck : Chunk) (o : ChkInfo), old.find? (fun o => o.id == ck.id) = some o →
       ck.recs.Pairwise (· ≤ ·) → o.recs < ck.recs.length →
       ∀ t ∈ ck.recs, (syncChunk old ck).minTs ≤ t ∧ t ≤ (syncChunk old ck).maxTs) ∧
